@@ -8,5 +8,7 @@ CONSTANTS
   Routes = {"argv"}
   Layouts = {"flat"}
   Slim = TRUE
+  HistKinds = {}
+  MaxLookups = 0
 INVARIANT AllBeatsSingleFollowsDocs
 CHECK_DEADLOCK FALSE
